@@ -21,11 +21,11 @@ def call(f, *args, **kwargs):
         self = getattr(f, "__self__", None)
         if isinstance(self, str) and getattr(f, "__name__", "") == "join" and len(args) == 1 and not kwargs:
             items = list(args[0])
-            if any(getattr(x, "_sx_str", False) for x in items):
+            if any(getattr(x, "_sx_str", False) is True for x in items):
                 from . import sstr
                 return sstr.join(self, items)
             return self.join(items)
-        if f is str and len(args) == 1 and getattr(args[0], "_sx_str", False):
+        if f is str and len(args) == 1 and getattr(args[0], "_sx_str", False) is True:
             return args[0]
         if self is not None and args and any_sym(args):
             name = getattr(f, "__name__", "")
